@@ -138,12 +138,21 @@ Qed.
 (* ------------------------------------------------------------------ closed witnesses *)
 Definition comma_dq : dialect := {| delim := 44; quote := 34 |}%N.
 
-(* "a,b\n1,2": WITHOUT the end-of-input signal (ReadCsv::bind's inference sample; the reader before ddfbbbc21) the
-   last record is lost; the reader (with the signal) returns the RFC-4180 records *)
-Lemma sample_unterminated_last_record_refuted :
+(* the inference sample (run_sample): with eof (the sample reached the end of the file) it is what the reader decodes,
+   without it is the decoder alone *)
+Lemma run_sample_eof_reader : forall d bs, run_sample d true bs = run_reader d bs.
+Proof. intros d [|b bs]; reflexivity. Qed.
+
+Lemma run_sample_noeof_dfa : forall d bs, run_sample d false bs = run_dfa d bs.
+Proof. reflexivity. Qed.
+
+(* "a,b\n1,2": WITHOUT the end-of-input signal (ReadCsv::bind's inference sample before the repair; the reader before
+   ddfbbbc21) the last record is lost; the reader and the sample of a whole file (with the signal) return the
+   RFC-4180 records *)
+Lemma sample_unterminated_last_record :
   exists d bs, ends_with_terminator bs = false /\
     run_dfa d bs = Some [[[97];[98]]]%N /\ rfc4180 d bs = [[[97];[98]]; [[49];[50]]]%N /\
-    run_reader d bs = Some (rfc4180 d bs).
+    run_reader d bs = Some (rfc4180 d bs) /\ run_sample d true bs = Some (rfc4180 d bs).
 Proof. exists comma_dq, [97;44;98;10;49;44;50]%N. vm_compute. repeat split; reflexivity. Qed.
 
 (* regression witnesses about the OLD definitions (code before ddfbbbc21 / 0abcb062b) *)
@@ -157,11 +166,13 @@ Lemma reader_old_flush_refuted :
                   reader_loop d 1 false st_init [c1; c2] = reader_loop d 1 false st_init [c1 ++ c2].
 Proof. exists comma_dq, [97;44;98;10;44]%N, [99;10]%N. vm_compute. split; [discriminate|reflexivity]. Qed.
 
-(* "a\n\nb\n": RFC 4180 reads the blank line as a record of one empty field, csv_core skips it *)
-Lemma blank_line_refuted :
-  exists d bs, ends_with_terminator bs = true /\
-    run_dfa d bs = Some [[[97]]; [[98]]]%N /\ rfc4180 d bs = [[[97]]; [[]]; [[98]]]%N.
-Proof. exists comma_dq, [97;10;10;98;10]%N. vm_compute. repeat split; reflexivity. Qed.
+(* "a\n\nb\n": the blank line is not a record, for csv_core (documented) and for the spec; "a\n\"\"\nb\n": a quoted
+   empty field on a line of its own is *)
+Lemma blank_line_skipped :
+  exists d bs bs', ends_with_terminator bs = true /\
+    run_reader d bs = Some [[[97]]; [[98]]]%N /\ rfc4180 d bs = [[[97]]; [[98]]]%N /\
+    run_reader d bs' = Some [[[97]]; [[]]; [[98]]]%N /\ rfc4180 d bs' = [[[97]]; [[]]; [[98]]]%N.
+Proof. exists comma_dq, [97;10;10;98;10]%N, [97;10;34;34;10;98;10]%N. vm_compute. repeat split; reflexivity. Qed.
 
 (* a BOM cut by a first read of fewer than 3 bytes is not stripped *)
 Lemma bom_split_refuted :
